@@ -1,6 +1,7 @@
 import OdakProofs.RealInst
 import OdakProofs.Lemmas.Kernels
 import OdakModel.Polar
+import OdakProofs.Lemmas.GenPolar
 import Mathlib.Analysis.SpecialFunctions.Complex.Arg
 import Mathlib.Algebra.Order.Floor.Ring
 
@@ -110,5 +111,46 @@ theorem C09_quantize_level (x : ℝ) (hx0 : 0 ≤ x) (hx1 : x < 2 * Real.pi) (bi
 
 /-- non-vacuity -/
 example : (0 : ℝ) < 2 * Real.pi := by positivity
+
+end Odak
+
+/-! ## The same statements for the field utilities REGENERATED from the Python source on this run
+  (`OdakModel/Generated/WaveKernels.lean`: torch `odak/learn/wave/util.py` = suffix `T`, NumPy `odak/wave/utils.py`,
+  `odak/wave/__init__.py` = suffix `N`; tied to the hand model by `OdakProofs/Lemmas/GenPolar.lean`). -/
+namespace Odak
+open Gen
+
+/-- rebuilding a field from its computed amplitude and phase returns the same field, both APIs, as the source is now -/
+theorem C09_gen_polar_roundtrip (u : Cx ℝ) :
+    genFieldT (calcAmplitudeT u) (calcPhaseT u) = u ∧ genFieldN (calcAmplitudeN u) (calcPhaseN u) = u := by
+  simp only [gen_genFieldT_eq, gen_genFieldN_eq, gen_calcAmplitudeT_eq, gen_calcAmplitudeN_eq, gen_calcPhaseT_eq,
+    gen_calcPhaseN_eq]
+  exact ⟨C09_polar_roundtrip u, C09_polar_roundtrip u⟩
+
+/-- amplitude is non-negative and phase lies in (−π, π], both APIs -/
+theorem C09_gen_amplitude_phase_ranges (u : Cx ℝ) :
+    (0 ≤ calcAmplitudeT u ∧ -Real.pi < calcPhaseT u ∧ calcPhaseT u ≤ Real.pi) ∧
+    (0 ≤ calcAmplitudeN u ∧ -Real.pi < calcPhaseN u ∧ calcPhaseN u ≤ Real.pi) := by
+  simp only [gen_calcAmplitudeT_eq, gen_calcAmplitudeN_eq, gen_calcPhaseT_eq, gen_calcPhaseN_eq]
+  exact ⟨C09_amplitude_phase_ranges u, C09_amplitude_phase_ranges u⟩
+
+/-- replacing the amplitude: the new modulus is `|a|`, and (for `a ≠ 0`) the phase is kept, both APIs -/
+theorem C09_gen_set_amplitude (u a : Cx ℝ) :
+    (calcAmplitudeT (setAmplitudeT u a) = calcAmplitudeT a ∧
+      (0 < calcAmplitudeT a → calcPhaseT (setAmplitudeT u a) = calcPhaseT u)) ∧
+    (calcAmplitudeN (setAmplitudeN u a) = calcAmplitudeN a ∧
+      (0 < calcAmplitudeN a → calcPhaseN (setAmplitudeN u a) = calcPhaseN u)) := by
+  simp only [gen_setAmplitudeT_eq, gen_setAmplitudeN_eq, gen_calcAmplitudeT_eq, gen_calcAmplitudeN_eq, gen_calcPhaseT_eq,
+    gen_calcPhaseN_eq]
+  exact ⟨C09_set_amplitude u a, C09_set_amplitude u a⟩
+
+/-- NumPy `add_phase` keeps the amplitude -/
+theorem C09_gen_add_phase_keeps_amplitude (u : Cx ℝ) (φ : ℝ) : calcAmplitudeN (addPhaseN u φ) = calcAmplitudeN u := by
+  simp only [gen_addPhaseN_eq, gen_calcAmplitudeN_eq]
+  exact C09_add_phase_keeps_amplitude u φ
+
+/-- `wavenumber λ = 2π/λ` in both APIs, as the source is now -/
+theorem C09_gen_wavenumber (lam : ℝ) : wavenumberT lam = 2 * Real.pi / lam ∧ wavenumberN lam = 2 * Real.pi / lam := by
+  simp only [gen_wavenumberT_eq, gen_wavenumberN_eq, wavenumber, num_two, num_pi, and_self]
 
 end Odak
